@@ -181,6 +181,15 @@ func c01Case(w *rt.W, st *c01State, y int64, m, d int, slow bool) {
 			}
 			w.Eval(4)
 		}
+		for _, vb := range []struct {
+			verb rune
+			want string
+		}{{'s', wantE}, {'v', wantE}, {'e', wantE}, {'b', wantB}, {'d', wantE}, {'q', wantE}} {
+			if s := formatVia(dt, vb.verb); s != vb.want {
+				c01Fail(w, "out-verb", y, m, d, "Format(%"+string(vb.verb)+") through a fmt.State that is not fmt's printer", s, vb.want)
+			}
+		}
+		w.Eval(6)
 		if s := fmt.Sprintf("%+v", struct{ D date.Date }{dt}); s != "{D:"+wantE+"}" {
 			c01Fail(w, "out-verb", y, m, d, "Sprintf %+v of a struct holding the date", s, "{D:"+wantE+"}")
 		}
@@ -260,6 +269,15 @@ func c01Case(w *rt.W, st *c01State, y int64, m, d int, slow bool) {
 			u = date.Date{}
 		}
 		check("UnmarshalText", u, err)
+		{ // Scan: if it takes text at all (database drivers hand DATE columns over as string or []byte), it is an input path
+			s1, s2 := date.New(1234, 5, 6), date.New(1234, 5, 6)
+			if err := s1.Scan(text); err == nil {
+				check("Scan(string)", s1, nil)
+			}
+			if err := s2.Scan([]byte(text)); err == nil {
+				check("Scan([]byte)", s2, nil)
+			}
+		}
 		if slow {
 			var j date.Date
 			err = json.Unmarshal([]byte(`"`+text+`"`), &j)
